@@ -610,6 +610,11 @@ func (w *world) delOp(op *Op) error {
 	if hit == "" {
 		return err
 	}
+	if hit == "remove" {
+		// DeleteBefore does nothing but removals: step number = removals done before the failing one
+		f, _ := w.ds.FirstIndex()
+		w.dfault = &DelFaultObs{I: int(op.Step), Rep: err != nil, F: f}
+	}
 	if err == nil {
 		w.c.Stats["fault-unreported:"+hit]++
 		w.c.UnrepDB = append(w.c.UnrepDB, len(w.c.Outs))
